@@ -575,6 +575,8 @@ def _hirshfeld_case(ctx: Ctx, hmod, m=None):
             pts.append(a + d * 10 ** rng.uniform(-3, -1))           # between the first knots (boundary condition of the spline)
         elif u < 0.4:
             pts.append(a + d * rng.uniform(8, 15))                  # tail
+        elif u < 0.5:
+            pts.append(a + d * 10 ** rng.uniform(1.6, 3.5))         # far point: 40 .. 3000 bohr, beyond the tabulated range of every pro-atom (90 .. 125 bohr)
         else:
             pts.append(a + np.array([rng.gauss(0, 0.9) for _ in range(3)]))
     pts = np.array(pts).reshape(n, 3)
